@@ -140,7 +140,7 @@ def run(case):
         attempt("cholesky", upper, lambda o, upper=upper: o.cholesky(upper=upper), j_chol)
 
     # ---- roots ------------------------------------------------------------------------------------
-    def j_root(target, inverse):
+    def j_root(target, inverse, method=None):
         def judge(got, paths):
             Rm = dn(got.root)
             if Rm.shape[-2] != n or tuple(Rm.shape[:-2]) != tuple(A.shape[:-2]):
@@ -149,6 +149,9 @@ def run(case):
                 return ("nan", "NaN/Inf in the root"), None, {}
             M = Rm @ Rm.mT
             approx = "Lanczos" in paths or "Pivoted Cholesky" in paths
+            if method in ("cholesky", "symeig", "svd"):
+                # an explicitly requested direct method is exact, whatever routine it ends up running
+                approx = False
             tscale = target.abs().amax().item()
             if not approx:
                 tol = 1e-9 * cond * cond * tscale * n if inverse else tol_direct
@@ -177,9 +180,9 @@ def run(case):
             return None, d / tol, {"approx": True}
         return judge
     for m in ROOT_METHODS:
-        attempt("root_decomposition", m, lambda o, m=m: o.root_decomposition(method=m), j_root(A, False))
+        attempt("root_decomposition", m, lambda o, m=m: o.root_decomposition(method=m), j_root(A, False, m))
     for m in ROOT_INV_METHODS:
-        attempt("root_inv_decomposition", m, lambda o, m=m: o.root_inv_decomposition(method=m), j_root(Ainv, True))
+        attempt("root_inv_decomposition", m, lambda o, m=m: o.root_inv_decomposition(method=m), j_root(Ainv, True, m))
     # lanczos inverse root with supplied initial / test vectors
     iv = torch.randn(*A.shape[:-2], n, 3, generator=torch.Generator().manual_seed(5), dtype=DT)
     tv = torch.randn(*A.shape[:-2], n, 3, generator=torch.Generator().manual_seed(6), dtype=DT)
